@@ -191,8 +191,15 @@ func runOnce(c Case) (res vh.Result) {
 		queues[i].Start()
 	}
 	defer func() {
+		// (a queue whose current command never completes cannot be stopped: Stop needs the lock the commit holds)
 		for _, q := range queues {
-			q.Stop()
+			q := q
+			stopped := make(chan struct{})
+			go func() { q.Stop(); close(stopped) }()
+			select {
+			case <-stopped:
+			case <-time.After(2 * time.Second):
+			}
 		}
 	}()
 	for i, st := range cmds {
